@@ -1531,7 +1531,9 @@ def _encode_host(host: str, validate_host: bool) -> str:
         raise ValueError(
             f"Host {host!r} cannot contain {value!r} (at position {pos}){extra}"
         ) from None
-    return host
+    # A colon can only come from an IP-literal that is not an IPv6 address
+    # (IPvFuture), it needs its brackets like IPv6 addresses do.
+    return f"[{host}]" if ":" in host else host
 
 
 @rewrite_module
